@@ -27,11 +27,19 @@ def run_sim(sim):
         sim.close_leftovers()
 
 
+# C17 re-runs the other workloads with an interrupt at (almost) every suspension
+FORCE_INTERRUPT_DEN = [None]
+
+
+def set_interrupts(sim, den):
+    sim.interrupt_den = den if FORCE_INTERRUPT_DEN[0] is None else FORCE_INTERRUPT_DEN[0]
+
+
 def new_sim(st, interrupts=True, max_steps=20000):
     sim = Sim(st.schedule, max_steps=max_steps)
     sim.faults = st.schedule  # interrupts are drawn from the schedule stream
     if interrupts:
-        sim.interrupt_den = (0, 0, 5, 2)[st.scenario.draw(4)]
+        set_interrupts(sim, (0, 0, 5, 2)[st.scenario.draw(4)])
     return sim
 
 
@@ -42,6 +50,9 @@ def finish_outcome(out, st, sim, ctx):
     out.trace = sim.trace
     out.capped = sim.capped
     out.breaches = len(sim.breaches)
+    if sim.breaches:
+        out.probes["c17_breach_seen"] = 1
+        out.breach_detail = sim.breaches[:3]
     f = out.faults
     f["interrupt_absorbed"] = sim.n_interrupts_absorbed
     f["suspension"] = sim.n_tokens
